@@ -559,6 +559,16 @@ impl<'a> Socket<'a> {
                 }
             };
 
+            if src_addr.version() != packet_meta.endpoint.addr.version() {
+                // (e.g. a socket bound to an IPv6 address asked to send to an IPv4 one)
+                net_trace!(
+                    "udp:{}:{}: source and destination IP versions differ, dropping.",
+                    endpoint,
+                    packet_meta.endpoint
+                );
+                return Ok(());
+            }
+
             net_trace!(
                 "udp:{}:{}: sending {} octets",
                 endpoint,
